@@ -286,9 +286,27 @@ Fixpoint put_all (m : bmap bytes) (l : list node) : hres (bmap bytes) :=
   | b :: r => match db_put m b with HErr e => HErr e | HOk m' => put_all m' r end
   end.
 
-(* merkleTree.Add(key, hash, proof).  A proof longer than the level leaves nil
-   entries in proofBr, and bdb.Put(nil) dereferences nil. *)
+(* merkleTree.Add(key, hash, proof): too short and (since /repo 33272cd) too
+   long proofs are verification errors *)
 Definition mt_add (t : mtree) (key : N) (hash : bytes) (proof : list bytes) : hres mtree :=
+  if Nat.ltb (length proof) (min_proof_len (mt_level t) key) then HErr HVerify else
+  if Nat.ltb (mt_level t) (length proof) then HErr HVerify else
+  let omit := (mt_level t - length proof)%nat in
+  match mt_add_loop (mt_db t) (mt_root t) (mt_level t) key omit 0 proof [] with
+  | HErr e => HErr e
+  | HOk (br, nodes) =>
+      if negb (bytes_eqb (obytes (node_get br (digit key 0))) hash) then HErr HVerify
+      else match put_all (mt_db t) nodes with
+           | HErr e => HErr e
+           | HOk m' => HOk (mkMtree m' (mt_level t) (mt_root t) (mt_cap t))
+           end
+  end.
+
+(* the code before /repo 33272cd: no upper bound on the proof length.  With
+   len(proof) > level, omit is negative, the loop reads proof[i-omit] (skips the
+   leading extra elements), their slots in proofBr stay nil and bdb.Put(nil)
+   dereferences nil. *)
+Definition mt_add_old (t : mtree) (key : N) (hash : bytes) (proof : list bytes) : hres mtree :=
   if Nat.ltb (length proof) (min_proof_len (mt_level t) key) then HErr HVerify else
   let omit := (mt_level t - length proof)%nat in
   let extra := (length proof - mt_level t)%nat in        (* -omit when the proof is too long *)
